@@ -948,6 +948,114 @@ class VecTr(Tr):
         return None
 
 
+class CplxTr(VecTr):
+    """utils/cplx.py in its ELEMENTWISE reading: a complex tensor x (leading axis of length 2) is read as one complex number
+    (real(x), imag(x)) : R * R, a real tensor as one real; only operations that act entry by entry are accepted, so the tensor
+    result is the entrywise map of the scalar result (same trusted reading as VecTr).  Module-level helpers (conj, scalar_mult,
+    elementwise_mult, inverse ...) are inlined from the current source.  The out-buffer idiom of scalar_mult
+        torch.mul(A, B, out=real(out)).sub_(E)      torch.mul(A, B, out=imag(out)).add_(E)
+    is read as a write of A*B -/+ E to that component of `out`; the kernel is the out=None path (a fresh zero buffer)."""
+
+    def expr(self, node, env):
+        if isinstance(node, ast.Call) and isinstance(node.func, ast.Name):
+            fn, args, kws = node.func.id, node.args, node.keywords
+            if fn in ("real", "imag") and len(args) == 1 and not kws:
+                a, ta = self.expr(args[0], env)
+                if ta == "C":
+                    return "(%s %s)" % ("fst" if fn == "real" else "snd", a), F
+                raise Untranslatable("%s() of a %s" % (fn, ta))
+            if fn == "make_complex" and not kws and len(args) in (1, 2):
+                parts = [self.expr(a, env) for a in args]
+                if all(t in (F, Z) for _, t in parts):
+                    re_ = self.coerce(parts[0][0], parts[0][1], F)
+                    im_ = self.coerce(parts[1][0], parts[1][1], F) if len(parts) == 2 else "(IZR 0)"
+                    return "(%s, %s)" % (re_, im_), "C"
+                raise Untranslatable("make_complex of non-reals")
+            if fn in self.funcs and fn not in ("real", "imag", "make_complex"):
+                return self.inline(self.funcs[fn], node, env)
+        if isinstance(node, ast.Call) and ast.unparse(node.func) == "torch.mul" and len(node.args) == 2 and not node.keywords:
+            a, ta = self.expr(node.args[0], env)
+            b, tb = self.expr(node.args[1], env)
+            if ta in (F, Z) and tb in (F, Z):
+                return "(Rmult %s %s)" % (self.coerce(a, ta, F), self.coerce(b, tb, F)), F
+        if isinstance(node, ast.Call) and ast.unparse(node.func) == "torch.zeros" and node.args and ast.unparse(node.args[0]) == "2":
+            return "(IZR 0, IZR 0)", "C"                        # a fresh complex buffer
+        if isinstance(node, ast.Call) and isinstance(node.func, ast.Attribute) and not node.keywords:
+            meth, args = node.func.attr, node.args
+            if meth in ("pow", "pow_") and len(args) == 1 and ast.unparse(args[0]) == "2":
+                x, tx = self.expr(node.func.value, env)
+                if tx == F:
+                    return "(Rsqr %s)" % x, F
+            if meth in ("div", "div_") and len(args) == 1:
+                x, tx = self.expr(node.func.value, env)
+                y, ty = self.expr(args[0], env)
+                if tx == "C" and ty in (F, Z):
+                    return self.cdivr(x, self.coerce(y, ty, F)), "C"
+        if isinstance(node, ast.BinOp) and isinstance(node.op, ast.Div):
+            x, tx = self.expr(node.left, env)
+            y, ty = self.expr(node.right, env)
+            if tx == "C" and ty in (F, Z):
+                return self.cdivr(x, self.coerce(y, ty, F)), "C"
+        return VecTr.expr(self, node, env)
+
+    def cdivr(self, x, y):
+        n = self.fresh("c")
+        return "(let %s := %s in (Rdiv (fst %s) %s, Rdiv (snd %s) %s))" % (n, x, n, y, n, y)
+
+    def inline(self, callee, node, env):
+        if self.depth > 6:
+            raise Untranslatable("inlining too deep")
+        if callee.args.vararg or callee.args.kwarg:
+            raise Untranslatable("helper %s with *args / **kwargs" % callee.name)
+        params = [a.arg for a in callee.args.args]
+        if len(node.args) > len(params) or node.keywords:
+            raise Untranslatable("call form of helper %s" % callee.name)
+        cenv = {"#n": env.get("#n", 0) + 50 * (self.depth + 1)}
+        defaults = dict(zip(params[len(params) - len(callee.args.defaults):], callee.args.defaults))
+        for i, pn in enumerate(params):
+            if i < len(node.args):
+                cenv[pn] = self.expr(node.args[i], env)
+            elif pn in defaults and isinstance(defaults[pn], ast.Constant) and defaults[pn].value is None:
+                cenv[pn] = ("None", "NoneT")
+            else:
+                raise Untranslatable("missing argument %s of helper %s" % (pn, callee.name))
+        self.depth += 1
+        try:
+            return self.block(list(callee.body), cenv, "function")
+        finally:
+            self.depth -= 1
+
+    def block(self, stmts, env, kind, target=None):
+        if stmts:
+            s, rest = stmts[0], stmts[1:]
+            if isinstance(s, ast.If):
+                src = ast.unparse(s.test)
+                m = re.fullmatch(r"(\w+) is None", src)
+                if m and env.get(m.group(1)) == ("None", "NoneT"):
+                    return self.block(list(s.body) + rest, env, kind, target)
+                if src in self.spec.get("false_tests", []):       # stated in the kernel's name: equal shapes
+                    return self.block(list(s.orelse) + rest, env, kind, target)
+            if isinstance(s, ast.Expr) and isinstance(s.value, ast.Call) and isinstance(s.value.func, ast.Attribute) \
+                    and s.value.func.attr in ("sub_", "add_") and len(s.value.args) == 1 and not s.value.keywords:
+                inner = s.value.func.value
+                if isinstance(inner, ast.Call) and ast.unparse(inner.func) == "torch.mul" and len(inner.args) == 2 \
+                        and [k.arg for k in inner.keywords] == ["out"]:
+                    o = inner.keywords[0].value
+                    if isinstance(o, ast.Call) and isinstance(o.func, ast.Name) and o.func.id in ("real", "imag") and len(o.args) == 1 \
+                            and isinstance(o.args[0], ast.Name) and isinstance(env.get(o.args[0].id), tuple) and env[o.args[0].id][1] == "C":
+                        buf = o.args[0].id
+                        a, ta = self.expr(inner.args[0], env)
+                        b, tb = self.expr(inner.args[1], env)
+                        c, tc = self.expr(s.value.args[0], env)
+                        if ta == F and tb == F and tc == F:
+                            val = "(%s (Rmult %s %s) %s)" % ("Rminus" if s.value.func.attr == "sub_" else "Rplus", a, b, c)
+                            old = env[buf][0]
+                            new = "(%s, snd %s)" % (val, old) if o.func.id == "real" else "(fst %s, %s)" % (old, val)
+                            return self.bind(env, buf, new, "C", lambda e: self.block(rest, e, kind, target))
+                raise Untranslatable("in-place statement outside the out-buffer idiom: %s" % ast.unparse(s.value)[:80])
+        return VecTr.block(self, stmts, env, kind, target)
+
+
 # --------------------------------------------------------------------------- control skeleton of fit (C12)
 EVENT_KINDS = {"on_train_start": ("KTrainStart", 0), "on_epoch_start": ("KEpochStart", 1), "on_batch_start": ("KBatchStart", 2),
                "on_batch_end": ("KBatchEnd", 2), "on_epoch_end": ("KEpochEnd", 1), "on_train_end": ("KTrainEnd", 0)}
@@ -1213,7 +1321,10 @@ def translate_kernel(repo, spec):
         return "Definition gen_%s : list gstep :=\n  %s." % (spec["name"], extract_gibbs_skeleton(class_functions(tree, spec["func"]), fn)), "list gstep"
     if spec.get("kind") == "fit-skeleton":
         return "Definition gen_%s : skel :=\n  %s." % (spec["name"], extract_fit_skeleton(fn)), "skel"
-    tr = (VecTr if spec.get("vec") else Tr)(spec, class_functions(tree, spec["func"]))
+    if spec.get("cplx"):
+        tr = CplxTr(spec, {n.name: n for n in tree.body if isinstance(n, ast.FunctionDef)})
+    else:
+        tr = (VecTr if spec.get("vec") else Tr)(spec, class_functions(tree, spec["func"]))
     env = {}
     for py, coq, ty in spec["inputs"]:
         env[py] = (coq, ty)
